@@ -140,61 +140,122 @@ _CONTAINERS = ("dict", "list", "set", "defaultdict", "OrderedDict", "deque", "We
                "WeakSet", "Counter", "ChainMap")
 
 
-def _session_globals() -> list[str]:
-    """state outside the CompilationEngine that survives reset(): module- or class-level names bound to a container
-    (literal or constructor) that some function of the module mutates (subscript store / del, mutating method,
-    augmented assignment, `global` rebinding), and functions memoised by functools.cache / lru_cache
-    (cached_property is per object, not per session)"""
-    out = []
-    for root, _d, files in os.walk(_pkg()):
-        for fn in sorted(files):
-            if not fn.endswith(".py"):
-                continue
-            rel = os.path.relpath(os.path.join(root, fn), _pkg())
-            tree = _parse(rel)
-            names: dict[str, str] = {}
+def _callee(v):
+    if isinstance(v, ast.Call):
+        return v.func.attr if isinstance(v.func, ast.Attribute) else (v.func.id if isinstance(v.func, ast.Name) else None)
+    return None
 
-            def scan(body, prefix):
-                for st in body:
-                    t, v = None, None
-                    if isinstance(st, ast.Assign) and len(st.targets) == 1 and isinstance(st.targets[0], ast.Name):
-                        t, v = st.targets[0].id, st.value
-                    elif isinstance(st, ast.AnnAssign) and isinstance(st.target, ast.Name) and st.value is not None:
-                        t, v = st.target.id, st.value
-                    if t is not None:
-                        fnm = None
-                        if isinstance(v, ast.Call):
-                            fnm = v.func.attr if isinstance(v.func, ast.Attribute) else (
-                                v.func.id if isinstance(v.func, ast.Name) else None)
-                        if isinstance(v, (ast.Dict, ast.List, ast.Set, ast.DictComp, ast.ListComp, ast.SetComp)) \
-                                or fnm in _CONTAINERS:
-                            names[t] = prefix + t
-                    if isinstance(st, ast.ClassDef):
-                        scan(st.body, prefix + st.name + ".")
-            scan(tree.body, "")
-            mutated = set()
-            for f in ast.walk(tree):
-                if not isinstance(f, (ast.FunctionDef, ast.AsyncFunctionDef, ast.Lambda)):
+
+def _is_container_expr(v) -> bool:
+    return isinstance(v, (ast.Dict, ast.List, ast.Set, ast.DictComp, ast.ListComp, ast.SetComp)) or _callee(v) in _CONTAINERS
+
+
+def _session_globals() -> list[str]:
+    """SYNTACTIC inventory of state outside one `check`/`compile` call, over both packages (`guppylang_internals`
+    and `guppylang`, entries of the latter prefixed `guppylang/`).  What is listed:
+      (a) module- or class-level names bound to a container literal / comprehension / one of `_CONTAINERS`
+          constructors that some function of the same module mutates (subscript store or del, mutating method,
+          augmented assignment, `global`);
+      (b) functions memoised by functools.cache / lru_cache (cached_property is per object, not listed);
+      (c) module-level INSTANCES of a class of the two packages (singletons such as DEF_STORE, ENGINE): one entry per
+          attribute that any method of the class assigns a container to, followed through nested instances
+          (DEF_STORE.sources.sources); module-level `ContextVar`s;
+      (d) module-level names rebound through a `global` statement;
+      (e) stores into an attribute of a capitalised name other than self/cls from inside a function (class
+          attributes, monkey patches such as `Hugr.add_node = ...`);
+      (f) mutable default arguments (container expression or instance of a class with container attributes).
+    NOT seen: state reached through `setattr`/`__dict__`/`vars()`, function attributes, closures, containers bound under
+    another constructor name, instances created by a factory function, C-level caches (linecache, sys.modules), and
+    anything outside the two packages (hugr, tket)."""
+    roots = [("", _pkg()), ("guppylang/", os.path.join(bootstrap.REPO, "guppylang", "src", "guppylang"))]
+    trees: dict[str, ast.AST] = {}
+    for pre, root in roots:
+        for r, _d, files in os.walk(root):
+            for fn in sorted(files):
+                if fn.endswith(".py"):
+                    p = os.path.join(r, fn)
+                    trees[pre + os.path.relpath(p, root)] = ast.parse(open(p).read(), p)
+    classes: dict[str, list] = {}
+    for t in trees.values():
+        for c in ast.walk(t):
+            if isinstance(c, ast.ClassDef):
+                classes.setdefault(c.name, []).append(c)
+
+    def class_attrs(name, seen=()):
+        res = []
+        if name in seen:
+            return res
+        for c in classes.get(name, []):
+            for m in c.body:
+                if not isinstance(m, ast.FunctionDef):
                     continue
-                if not isinstance(f, ast.Lambda):
-                    for d in f.decorator_list:
-                        dn = ast.unparse(d).split("(")[0]
-                        if dn.split(".")[-1] in ("cache", "lru_cache"):
-                            out.append(f"{rel}:@{dn} {f.name}")
-                for n in ast.walk(f):
-                    b = None
-                    if isinstance(n, ast.Subscript) and isinstance(n.ctx, (ast.Store, ast.Del)):
-                        b = n.value
-                    elif isinstance(n, ast.Call) and isinstance(n.func, ast.Attribute) and n.func.attr in _MUTATORS:
-                        b = n.func.value
-                    elif isinstance(n, ast.AugAssign):
-                        b = n.target
-                    elif isinstance(n, ast.Global):
-                        mutated.update(x for x in n.names if x in names)
-                    nm = b.id if isinstance(b, ast.Name) else (b.attr if isinstance(b, ast.Attribute) else None)
-                    if nm in names:
-                        mutated.add(nm)
-            out.extend(f"{rel}:{names[nm]}" for nm in sorted(mutated))
+                for n in ast.walk(m):
+                    if isinstance(n, ast.Assign) and len(n.targets) == 1:
+                        tg, v = n.targets[0], n.value
+                    elif isinstance(n, ast.AnnAssign) and n.value is not None:
+                        tg, v = n.target, n.value
+                    else:
+                        continue
+                    if isinstance(tg, ast.Attribute) and isinstance(tg.value, ast.Name) and tg.value.id == "self":
+                        if _is_container_expr(v):
+                            res.append(tg.attr)
+                        elif _callee(v) in classes:
+                            res += [tg.attr + "." + x for x in class_attrs(_callee(v), seen + (name,))]
+        return sorted(set(res))
+
+    out = []
+    for rel, tree in trees.items():
+        names: dict[str, str] = {}
+
+        def scan(body, prefix):
+            for st in body:
+                t, v = None, None
+                if isinstance(st, ast.Assign) and len(st.targets) == 1 and isinstance(st.targets[0], ast.Name):
+                    t, v = st.targets[0].id, st.value
+                elif isinstance(st, ast.AnnAssign) and isinstance(st.target, ast.Name) and st.value is not None:
+                    t, v = st.target.id, st.value
+                if t is not None and _is_container_expr(v):
+                    names[t] = prefix + t
+                if t is not None and not prefix:  # (c) module-level instances
+                    if _callee(v) == "ContextVar":
+                        out.append(f"{rel}:{t} ContextVar")
+                    elif _callee(v) in classes:
+                        out.extend(f"{rel}:{t}.{x}" for x in class_attrs(_callee(v)))
+                if isinstance(st, ast.ClassDef):
+                    scan(st.body, prefix + st.name + ".")
+        scan(tree.body, "")
+        mutated = set()
+        for f in ast.walk(tree):
+            if not isinstance(f, (ast.FunctionDef, ast.AsyncFunctionDef, ast.Lambda)):
+                continue
+            if not isinstance(f, ast.Lambda):
+                for d in f.decorator_list:
+                    dn = ast.unparse(d).split("(")[0]
+                    if dn.split(".")[-1] in ("cache", "lru_cache"):
+                        out.append(f"{rel}:@{dn} {f.name}")
+                for d in f.args.defaults + [x for x in f.args.kw_defaults if x is not None]:  # (f)
+                    if _is_container_expr(d) or (_callee(d) in classes and class_attrs(_callee(d))):
+                        out.append(f"{rel}:{f.name}(default {ast.unparse(d)[:30]})")
+            for n in ast.walk(f):
+                b = None
+                if isinstance(n, ast.Subscript) and isinstance(n.ctx, (ast.Store, ast.Del)):
+                    b = n.value
+                elif isinstance(n, ast.Call) and isinstance(n.func, ast.Attribute) and n.func.attr in _MUTATORS:
+                    b = n.func.value
+                elif isinstance(n, ast.AugAssign):
+                    b = n.target
+                elif isinstance(n, ast.Global):
+                    mutated.update(x for x in n.names if x in names)
+                    out.extend(f"{rel}:global {x}" for x in n.names)  # (d)
+                if isinstance(n, (ast.Assign, ast.AugAssign)):  # (e)
+                    for tg in (n.targets if isinstance(n, ast.Assign) else [n.target]):
+                        if isinstance(tg, ast.Attribute) and isinstance(tg.value, ast.Name) \
+                                and tg.value.id not in ("self", "cls") and tg.value.id[:1].isupper():
+                            out.append(f"{rel}:{ast.unparse(tg)} set in {getattr(f, 'name', 'lambda')}")
+                nm = b.id if isinstance(b, ast.Name) else (b.attr if isinstance(b, ast.Attribute) else None)
+                if nm in names:
+                    mutated.add(nm)
+        out.extend(f"{rel}:{names[nm]}" for nm in sorted(mutated))
     return sorted(set(out))
 
 
